@@ -53,6 +53,13 @@ GenNext ==
 
 GenSpec == GenInit /\ [][GenNext]_<<vars, hist>>
 
+(* the same with a hostile peer: at any step one forged acknowledgement frame (drawn at random from
+   ForgedAcks, so that forging does not crowd out the honest successors in simulation mode) may be
+   handed to the sender instead *)
+\* (bound by \E over a singleton so that the random draw is evaluated once; a LET would be re-evaluated at every use)
+GenForge == faults > 0 /\ \E f \in {RandomElement(ForgedAcks)} : ForgeA(f) /\ Rec([op |-> "forgeA", f |-> FrameOut(f)])
+GenSpecHostile == GenInit /\ [][GenNext \/ GenForge]_<<vars, hist>>
+
 Bounded == nframes <= MaxFrames /\ nsyncs <= MaxSyncs
 (* printed once per simulated behaviour, when it reaches the requested depth *)
 Emit == Len(hist) = Depth => PrintT(<<"SCHED", ToJson([ops |-> hist, cfg |-> [PW |-> PW, FW |-> FW, PMod |-> PMod, FMod |-> FMod, PBase0 |-> PBase0, FBase0 |-> FBase0,
